@@ -119,6 +119,21 @@ def TStep.erase (t : DType) : TStep → Option Step
   | .resize e => some (.resize e)
   | .reopen => some .reopen
 
+/-- every index argument of the step is free of `Ellipsis` (then the step has an erasure) -/
+def TStep.plain : TStep → Bool
+  | .assign ix _ => (plainItems ix.items).isSome
+  | _ => true
+
+/-- what one typed step contributes to the performed history: its erasure if it raised nothing -/
+def performedHead : Option IoErr → Option Step → List Step
+  | none, some s' => [s']
+  | _, _ => []
+
+/-- the untyped steps a typed history performed: the erasures of the steps that raised nothing -/
+def performed (A : DArr) : List TStep → List Step
+  | [] => []
+  | s :: rest => performedHead (stepS A s).2 (s.erase A.dtype) ++ performed (stepS A s).1 rest
+
 /-- `Block.create_data_array` with typed data: the argument rules, then `DataArray.create_new` (a dataset of the
 chosen type and shape holding the fill value), then `write_direct(data)`; a failure anywhere leaves no array
 (`/repo` 8995dfc removes the half-built one) -/
@@ -136,5 +151,16 @@ def createS (dtype : Option DType) (shape : Option (List Nat)) (data : Option Ar
     else if dtype = none ∧ d.dt = .string then .error (.err .typeError)
     else
       writeData ⟨chooseDType dtype d.dt, compr, ⟨d.a.shape, fun _ => (chooseDType dtype d.dt).fill⟩⟩ d .none
+
+/-- `DataArray.create_new(…, dtype, shape, compression)` followed by `da.write_direct(data)` when data is given,
+on the outcome of the argument rules: a dataset of that type and shape holding the fill value, then the write -/
+def createFrom (compr : Bool) : Option DTypeArg × Option (List Int) × Option Arr → Except IoErr DArr
+  | (some (.nix t), some sh, d) =>
+    if !allNonneg sh then .error (.err .valueError)
+    else
+      match d with
+      | none => .ok ⟨t, compr, ⟨sh.map Int.toNat, fun _ => t.fill⟩⟩
+      | some d => writeData ⟨t, compr, ⟨sh.map Int.toNat, fun _ => t.fill⟩⟩ d .none
+  | _ => .error (.err .typeError)
 
 end Nix.Nd
